@@ -3,4 +3,4 @@ From Coq Require Import ZArith NArith List Bool.
 From Coq Require Import ExtrOcamlBasic.
 From Stk Require Import R.Syntax R.Rt R.Mon R.MonX.
 Extraction Language OCaml.
-Extraction "extracted/r_model.ml" exec C01_ok C02_ok C03_ok C03_dropped_ok C04_ok C05_ok C05_calls_ok C06_ok C06_plain_ok C06_calls_ok C15_ok C16_ok C20_ok.
+Extraction "extracted/r_model.ml" exec C01_ok C02_ok C03_ok C03_dropped_ok C03_none_ok C04_ok C05_ok C05_calls_ok C06_ok C06_plain_ok C06_calls_ok C15_ok C16_ok C20_ok.
